@@ -31,6 +31,10 @@ def build_cases(tier, seed):
         # no generators at all: nothing competes with the cancellation clock (drivers still act)
         ctrl = {"stack": []} if i % 2 == 0 else BUILTIN
         cases.append(trace_case("C11", i, s, prof, ctrl, steps, ["C11"], opts=({"cosim_noops": 4 + i % 5} if i % 3 == 1 else {})))
+    # time stamps in inputs and logs are UTC whatever the host's time zone: every third case runs in a process set to another zone
+    for k, c in enumerate(cases):
+        if k % 3 == 2:
+            c["env"] = {"TZ": ["MST7", "JST-9", "CET-1CEST,M3.5.0,M10.5.0/3"][(k // 3) % 3]}
     return cases
 
 
